@@ -16,8 +16,13 @@ verus! {
 //       shim), `f == dep` -> `*f == *dep` (T9), `.cloned( .sort( .join( .to_vec(` -> wrappers (T5), for-`continue` (T11)
 //   anchors: `position:last` / negative ordinals (`@after cycle_path -4`) count from the END of the body, so that the
 //       contract text stays attached to the live cycle block when the dead one is removed or a call argument changes
-//   NOT claimed: completeness, and "which cycles are reported does not vary between runs" — it does vary (the DFS roots
-//       come in the hash order of a std HashMap, RandomState per process): see canary_C16_every_cycle_reported
+//   WEAK COMPLETENESS (prelude/cycles_complete.rs, all proved): `r@.len() == 0 ==> acyclic(self.defs())` — when the
+//       first-definition name graph has a closed chain, at least one cycle is reported.  Ingredients: loop 1 builds the
+//       WHOLE graph (graph_full + graph_dom_full, the converse of graph_ok; completeness of `.filter(..)` by the proved
+//       lemma_filter_complete of prelude/scanimp_iter.rs); a detection always leaves a report (keys_conv + tables_dom +
+//       dfs2_inv: the recursion set holds only names with an adjacency entry); while nothing is reported the ghost
+//       finishing order is a reverse topological order (stack_inv, topo_inv); every key is a root (lemma_roots_cover).
+//   NOT claimed: full completeness (every closed chain is reported) — false of the code: see canary_C16_every_cycle_reported
 global size_of usize == 8;  // A6: 64-bit target
 pub mod pre {
 use super::*;
@@ -32,8 +37,10 @@ use super::*;
 //@include prelude/dbview.rs
 //@include prelude/hof.rs
 //@include prelude/iter_ext.rs
+//@include prelude/scanimp_iter.rs
 //@include prelude/cycles_std.rs
 //@include prelude/cycles_spec.rs
+//@include prelude/cycles_complete.rs
 //@include prelude/cycles_roots.rs
 } // mod pre
 use pre::*;
@@ -51,10 +58,12 @@ pub uninterp spec fn op_cycles(q: QView) -> Seq<FixtureCycle>;
 pub open spec fn in_file_v(f: PV) -> spec_fn(CycV) -> bool { |c: CycV| c.fixture.file == f }
 pub open spec fn in_file_ref<'a>(f: PV) -> spec_fn(&'a FixtureCycle) -> bool { |c: &'a FixtureCycle| pbv(&c.fixture.file_path) == f }
 pub open spec fn cyv_ref<'a>() -> spec_fn(&'a FixtureCycle) -> CycV { |c: &'a FixtureCycle| cyv(c) }
+/// the view through which the completeness of `.filter(..)` over `def.dependencies.iter()` is stated
+pub open spec fn str_ref_view<'a>() -> spec_fn(&'a String) -> Seq<char> { |s: &'a String| s@ }
 
 pub mod resolver { // mirrors crate::fixtures::resolver so that `super::types::…` paths in the source resolve
 use super::*;
-broadcast use {vstd::std_specs::iter::filter_postcondition, lemma_take_filter_index_is_filter};
+broadcast use {vstd::std_specs::iter::filter_postcondition, lemma_take_filter_index_is_filter, lemma_filter_complete};
 impl FixtureDatabase {
     pub open spec fn defs(&self) -> Map<Seq<char>, Seq<DefV>> { defs_view(self.definitions.m()) }
     pub open spec fn q(&self) -> QView {
@@ -120,17 +129,25 @@ impl FixtureDatabase {
         cycles_ok(self.defs(), r@),
         // no two reported cycles have the same de-duplication key
         exists|seen: Set<Seq<char>>| keys_ok(r@, seen),
+        // weak completeness: when nothing is reported, the first-definition name graph has no closed chain
+        r@.len() == 0 ==> acyclic(self.defs()),
 @start
     let ghost defs = self.defs();
     let ghost m0 = self.definitions.m();
 @before for 1
-    proof { lemma_tables_empty(defs); }
+    let ghost mut done1: Set<Seq<char>> = Set::empty();
+    proof { lemma_tables_empty(defs); lemma_full_empty(defs); }
 @loopvar 1 it1
 @loop 1
     invariant
         defs == self.defs(), m0 == self.definitions.m(),
         forall|j: int| 0 <= j < it1.seq().len() ==> m0.contains_key((#[trigger] it1.seq()[j]).k@) && *it1.seq()[j].v == m0[it1.seq()[j].k@],
         graph_ok(dg_view(dep_graph.m()), defs), fdefs_ok(fixture_defs.m(), defs),
+        // the converse inclusion: the table holds every edge of G that leaves one of its keys, and every name
+        // looked at so far that has a non-empty bucket is a key
+        graph_full(dg_view(dep_graph.m()), defs), tables_dom(dep_graph.m(), fixture_defs.m()),
+        forall|x: Seq<char>| #[trigger] m0.contains_key(x) ==> done1.contains(x) || exists|j: int| it1.index@ <= j < it1.seq().len() && (#[trigger] it1.seq()[j]).k@ == x,
+        forall|x: Seq<char>| #[trigger] done1.contains(x) && m0.contains_key(x) && m0[x]@.len() > 0 ==> dep_graph.m().contains_key(x),
 @loopstart 1
     let ghost nm = entry.k@;
     let ghost dg0 = dep_graph.m();
@@ -147,28 +164,83 @@ impl FixtureDatabase {
             assert(strs_v(ds)[i] == x@);
             assert(dv(def).dependencies.contains(x@));
         }
+        // ... and every known dependency of the first definition is kept by the filter
+        assert forall|x: Seq<char>| #[trigger] edge(defs, nm, x) implies strs_v(valid_deps@).contains(x) by {
+            let ds = def.dependencies@;
+            assert(dv(def).dependencies.contains(x));
+            let i = choose|i: int| 0 <= i < strs_v(ds).len() && strs_v(ds)[i] == x;
+            assert(ds[i]@ == x && m0.contains_key(x));
+            let y = ds.as_ref()[i];
+            assert(want(str_ref_view(), x));
+            assert(exists|k: int| 0 <= k < valid_deps@.len() && (#[trigger] valid_deps@[k])@ == x);
+            let k = choose|k: int| 0 <= k < valid_deps@.len() && (#[trigger] valid_deps@[k])@ == x;
+            assert(strs_v(valid_deps@)[k] == x);
+        }
     }
 @after valid_deps 2
     proof {
         lemma_tables_insert(defs, dg0, dep_graph.m(), fd0, fixture_defs.m(), nm, dep_graph.m()[nm], fixture_defs.m()[nm]);
+        lemma_full_insert(defs, dg0, dep_graph.m(), fd0, fixture_defs.m(), nm, dep_graph.m()[nm], fixture_defs.m()[nm]);
     }
+@loopend 1
+    proof { done1 = done1.insert(nm); }
 @before visited 1
     let ghost g = dg_view(dep_graph.m());
+    // the finishing order: one tick per `visited.insert`
+    let ghost mut fin: Map<Seq<char>, nat> = Map::empty();
+    let ghost mut cnt: nat = 0;
+    proof {
+        assert(graph_dom_full(g, defs)) by {
+            reveal(graph_dom_full);
+            assert forall|n: Seq<char>| #[trigger] defs.contains_key(n) && defs[n].len() > 0 implies g.contains_key(n) by {
+                assert(m0.contains_key(n));
+                assert(done1.contains(n));
+            }
+        }
+        lemma_topo_empty(g);
+    }
 @after roots 1
     let ghost keys0 = strs_r(roots@);
 @after roots 2
-    proof { assert(strs_r(roots@) == roots_of(dep_graph.m().dom(), keys0)); }
+    proof {
+        assert(strs_r(roots@) == roots_of(dep_graph.m().dom(), keys0));
+        // the sorted roots are still all the keys of the table
+        lemma_roots_cover(keys0, strs_r(roots@), g.dom());
+        assert forall|x: Seq<char>| #[trigger] g.contains_key(x) implies exists|j: int| 0 <= j < roots@.len() && (#[trigger] roots@[j])@ == x by {
+            assert(g.dom().contains(x));
+            assert(strs_r(roots@).contains(x));
+            let j = choose|j: int| 0 <= j < strs_r(roots@).len() && strs_r(roots@)[j] == x;
+            assert(roots@[j]@ == x);
+        }
+        assert forall|j: int| 0 <= j < roots@.len() implies g.contains_key((#[trigger] roots@[j])@) by {
+            assert(strs_r(roots@)[j] == roots@[j]@);
+            assert(strs_r(roots@).contains(roots@[j]@));
+            assert(g.dom().contains(roots@[j]@));
+        }
+    }
 @loopvar 2 it2
 @loop 2
     invariant
         defs == self.defs(), g == dg_view(dep_graph.m()),
         graph_ok(g, defs), fdefs_ok(fixture_defs.m(), defs),
         cycles_ok(defs, cycles@), keys_ok(cycles@, seen_cycles.s()),
+        tables_dom(dep_graph.m(), fixture_defs.m()), keys_conv(cycles@, seen_cycles.s()),
+        cycles@.len() == 0 ==> topo_inv(g, visited.s(), fin, cnt),
+        forall|j: int| 0 <= j < it2.seq().len() ==> g.contains_key((#[trigger] it2.seq()[j])@),
+        // every key of the table is finished or still to come as a root
+        forall|x: Seq<char>| #[trigger] g.contains_key(x) ==> visited.s().contains(x) || exists|j: int| it2.index@ <= j < it2.seq().len() && (#[trigger] it2.seq()[j])@ == x,
+@loopstart 2
+    let ghost root_v = start_fixture@;
+    let ghost vis_b = visited.s();
+    proof { assert(*start_fixture == *it2.seq()[it2.index@ as int]); }
+@loopend 2
+    proof { assert(visited.s().contains(root_v)); }
 @after rec_stack 1
     let ghost mut gsv: Seq<EntV> = evs(stack@);
     proof {
         assert(stack@.len() == 1);
         lemma_dfs_init(defs, gsv, visited.s());
+        lemma2_init(g, gsv, visited.s());
     }
 @loop 3
     invariant
@@ -177,6 +249,14 @@ impl FixtureDatabase {
         cycles_ok(defs, cycles@), keys_ok(cycles@, seen_cycles.s()),
         gsv == evs(stack@),
         dfs_inv(defs, gsv, rec_stack.s(), visited.s()),
+        tables_dom(dep_graph.m(), fixture_defs.m()), keys_conv(cycles@, seen_cycles.s()),
+        dfs2_inv(g, gsv, rec_stack.s(), visited.s()),
+        // while nothing has been reported: stack discipline + the finishing order is a reverse topological order
+        cycles@.len() == 0 ==> stack_inv(g, gsv, visited.s()) && topo_inv(g, visited.s(), fin, cnt),
+        // the bottom entry is the root; the root is finished when the stack is empty; `visited` only grows
+        g.contains_key(root_v), gsv.len() > 0 ==> gsv[0].node == root_v, gsv.len() == 0 ==> visited.s().contains(root_v),
+        vis_b.subset_of(visited.s()),
+    ensures gsv.len() == 0,
     decreases dfs_a(g, rec_stack.s(), visited.s()), dfs_b(g, gsv),
 @loopstart 3
     let ghost sv0 = gsv;
@@ -208,6 +288,7 @@ impl FixtureDatabase {
 @before continue 3
     proof {
         lemma_step_pop(defs, sv0, rec0, vis0, vis0);
+        lemma2_none(defs, g, sv0, rec0, vis0);
         lemma_meas_none(g, sv0, rec0, vis0);
         gsv = sv0.drop_last();
     }
@@ -236,29 +317,59 @@ impl FixtureDatabase {
         assert(is_closed_chain(defs, cpv));
         assert(strs_v(cycle_path@.subrange(0, cycle_path@.len() - 1)) =~= cpv.drop_last());
     }
+@after cycle_key -1
+    proof {
+        assert(cycle_key_str@ == cyc_key(cpv));
+        // a key seen before is the key of a cycle reported before
+        if seen0.contains(cyc_key(cpv)) { lemma_conv_seen(cycles0, seen0, cyc_key(cpv)); }
+    }
 @after fixture_defs -1
     proof {
         assert(cycle_key_str@ == cyc_key(cpv));
         assert(cpv.last() == dep@);
+        // local completeness: the dependency is on the recursion set, so it has an adjacency entry, so the table of
+        // first definitions has an entry for it: the report IS pushed
+        lemma2_detect(g, sv0, rec0, vis0, dep_v);
+        assert(fixture_defs.m().contains_key(dep@)) by { reveal(tables_dom); assert(dep_graph.m().contains_key(dep_v)); }
+        assert(cycles@.len() == cycles0.len() + 1);
         if cycles@.len() != cycles0.len() {
             assert(cycles@.drop_last() =~= cycles0);
             assert(strs_v(cycles@.last().cycle_path@) == cpv);
         }
         lemma_report(defs, fixture_defs.m(), cycles0, cycles@, seen0, cpv);
+        lemma_report_conv(cycles0, cycles@, seen0, cpv);
     }
 @after dep 2
     proof {
         let explore = !rec1.contains(dep_v) && !vis0.contains(dep_v);
         lemma_step_dep(defs, g, sv0, rec0, vis0, explore);
+        lemma2_dep(defs, g, sv0, rec0, vis0, explore);
+        // a detection always leaves a report behind; without one the stack discipline goes on
+        if rec1.contains(dep_v) { assert(cycles@.len() > 0); }
+        else if cycles0.len() == 0 { lemma2_dep_stack(g, sv0, rec0, vis0, explore); }
         lemma_meas_dep(g, sv0, rec0, vis0, explore);
         gsv = next_sv(sv0, dep_v, explore);
         assert(evs(stack@) =~= gsv);
     }
-@after visited -1
+@after rec_stack -1
     proof {
         lemma_step_pop(defs, sv0, rec0, vis0, vis0.insert(e.node));
+        lemma2_done(defs, g, sv0, rec0, vis0);
+        if cycles0.len() == 0 {
+            assert(g[e.node] == strs_v(deps@));
+            lemma2_done_topo(g, sv0, vis0, fin, cnt);
+            fin = fin.insert(e.node, cnt);
+            cnt = cnt + 1;
+        }
         lemma_meas_done(g, sv0, rec0, vis0);
         gsv = sv0.drop_last();
+    }
+@return tail
+    if cycles@.len() == 0 {
+        // every key of the table is finished and nothing was reported: no closed chain in the table, hence none in G
+        assert(forall|x: Seq<char>| #[trigger] g.contains_key(x) ==> visited.s().contains(x));
+        lemma_no_cycle(g, visited.s(), fin, cnt);
+        lemma_acyclic_lift(g, defs);
     }
 @*/
 }
@@ -317,7 +428,71 @@ pub proof fn lemma_F16b_override_is_self_loop_of_G(defs: Map<Seq<char>, Seq<DefV
     assert(edge(defs, n, n));
 }
 
+/// C16 (weak completeness): when the first-definition name graph G has a closed dependency chain — at least two
+/// entries, first == last, every consecutive pair (a, b): b is a parameter of the first registered definition of a and b
+/// is a known fixture name — then compute_fixture_cycles reports AT LEAST ONE cycle, and what it reports first is a real
+/// closed chain of G.  (Not: that very chain; not: every chain — canary_C16_every_cycle_reported.)  The hypotheses on
+/// `cs` are the L1 postconditions of compute_fixture_cycles (cycles_ok; `r@.len() == 0 ==> acyclic(self.defs())`).
+//@tags C16
+pub proof fn lemma_C16_some_cycle_reported_when_one_exists(defs: Map<Seq<char>, Seq<DefV>>, cs: Seq<FixtureCycle>, p: Seq<Seq<char>>)
+    requires cycles_ok(defs, cs), cs.len() == 0 ==> acyclic(defs),
+        p.len() >= 2, p[0] == p[p.len() - 1],
+        forall|i: int| 0 <= i < p.len() - 1 ==> defs.contains_key(#[trigger] p[i]) && defs[p[i]].len() > 0
+            && defs[p[i]][0].dependencies.contains(p[i + 1]) && defs.contains_key(p[i + 1]),
+    ensures cs.len() > 0, is_closed_chain(defs, strs_v(cs[0].cycle_path@)),
+{
+    assert(is_closed_chain(defs, p)) by {
+        reveal(is_chain);
+        assert forall|i: int| 0 <= i && i + 1 < p.len() implies edge(defs, #[trigger] p[i], p[i + 1]) by { }
+    }
+    assert(cs.len() > 0);
+    reveal(cycles_ok);
+    assert(cycle_ok(defs, cyv(&cs[0])));
+}
+/// C16 (weak completeness, contrapositive): an empty report means that no fixture depends on itself, directly or
+/// through other fixtures, in G (self-loops included: the override pattern of F-16b counts when it is registered first).
+//@tags C16
+pub proof fn lemma_C16_empty_report_means_no_dependency_cycle(defs: Map<Seq<char>, Seq<DefV>>, cs: Seq<FixtureCycle>, n: Seq<char>)
+    requires cs.len() == 0 ==> acyclic(defs), cs.len() == 0,
+    ensures !edge(defs, n, n),
+        forall|p: Seq<Seq<char>>| p.len() >= 2 && p[0] == p[p.len() - 1] ==> !#[trigger] is_chain(defs, p),
+{
+    if edge(defs, n, n) {
+        reveal(is_chain);
+        assert(is_closed_chain(defs, seq![n, n]));
+    }
+    assert forall|p: Seq<Seq<char>>| p.len() >= 2 && p[0] == p[p.len() - 1] implies !#[trigger] is_chain(defs, p) by {
+        if is_chain(defs, p) { assert(is_closed_chain(defs, p)); }
+    }
+}
+
 // ---- vacuity guards (must FAIL) -----------------------------------------------------------------------------
+/// the completeness invariants are satisfiable (a two-entry stack; something finished)
+pub proof fn canary_dfs2_inv_unsatisfiable(g: Map<Seq<char>, Seq<Seq<char>>>, sv: Seq<EntV>, rec: Set<Seq<char>>, vis: Set<Seq<char>>)
+    requires dfs2_inv(g, sv, rec, vis), stack_inv(g, sv, vis), sv.len() == 2, sv[0].idx > 0, sv[1].idx > 0,
+    ensures false,
+{
+    reveal(dfs2_inv); reveal(stack_inv);
+}
+pub proof fn canary_topo_inv_unsatisfiable(g: Map<Seq<char>, Seq<Seq<char>>>, vis: Set<Seq<char>>, fin: Map<Seq<char>, nat>, cnt: nat, n: Seq<char>)
+    requires topo_inv(g, vis, fin, cnt), vis.contains(n), g.contains_key(n), g[n].len() > 0,
+    ensures false,
+{
+    reveal(topo_inv);
+}
+/// acyclicity is not claimed of an arbitrary table
+pub proof fn canary_C16_any_table_acyclic(g: Map<Seq<char>, Seq<Seq<char>>>)
+    ensures g_acyclic(g),
+{
+    reveal(g_chain);
+}
+/// weak completeness needs its hypothesis: without the L1 postcondition nothing follows about the report
+pub proof fn canary_C16_report_nonempty_without_L1(defs: Map<Seq<char>, Seq<DefV>>, cs: Seq<FixtureCycle>, p: Seq<Seq<char>>)
+    requires cycles_ok(defs, cs), is_closed_chain(defs, p),
+    ensures cs.len() > 0,
+{
+    reveal(cycles_ok); reveal(is_chain);
+}
 /// the loop invariant is satisfiable
 pub proof fn canary_dfs_inv_unsatisfiable(defs: Map<Seq<char>, Seq<DefV>>, sv: Seq<EntV>, rec: Set<Seq<char>>, vis: Set<Seq<char>>)
     requires dfs_inv(defs, sv, rec, vis), sv.len() > 0,
